@@ -2,14 +2,20 @@
 // cocls::future<int>/promise<int> with real threads under the controlled scheduler.
 //
 // header: {"R":{"r1":"val",...}, "W":{"w1":"co",...}}
-//   resolver kinds: val exc drop mdes dtor final ; waiter kinds: co hv bl cb
+//   resolver kinds: val exc drop mdes masg dtor final ovw ; waiter kinds: co hv bl cb mp
+//   (mp: the callback of a callback-promise cocls::make_promise<T>(fn): no thread of its own, the future lives on the heap)
 // step label: Action(thread)
 // projection after each step:
 //   {"allocs":n,"chain":"ready"|[waiters from top],"owner":"fut"|"null","pend":{thread:pc},
 //    "res":{resolver:"none"|"true"|"false"},"resumes":{w:n},"seen":{w:{"tag","payload"}},"tag","payload"}
+//   with -DPAYLOAD_TRK additionally {"arg":{value resolver:"intact"|"moved"},"live":n,"made":n}: the state of each value
+//   resolver's rvalue ARGUMENT object, whether the library holds a live payload instance (0 / 1: the stored value; extra
+//   temporaries of a winning call are not the property's business) and, per resolver, whether a payload instance was
+//   constructed by the library on that resolver's thread (0 / 1: a refused call constructs nothing)
 #define REPLAY_COUNT_ALLOCS
 #include <cocls/future.h>
 #include <cocls/async.h>
+#include <cocls/coro_storage.h>
 #include <cocls_verif/vsched.h>
 #include "replay_common.h"
 
@@ -51,11 +57,64 @@ static int who_of(const Big &b) {
     return b.who;
 }
 static long payload_copies() { return Big::copies.load(); }
+#elif defined(PAYLOAD_TRK)
+// a move-only, instance-counted payload with a moved-from flag (optionally OVER-ALIGNED: -DPAYLOAD_ALIGN=64, alignof(T) >
+// __STDCPP_DEFAULT_NEW_ALIGNMENT__).  The only way the library can make an instance is the move constructor, which marks its
+// source; an instance made by the user (resolver argument, operand of co_return, bound argument) reports through its ArgRep
+// whether it was consumed, also after its death.
+#ifdef PAYLOAD_ALIGN
+#define TRK_ALIGNAS alignas(PAYLOAD_ALIGN)
+#else
+#define TRK_ALIGNAS
+#endif
+struct Trk;
+struct ArgRep { const Trk *obj = nullptr; bool dead = false; bool moved_at_death = false; };
+struct TRK_ALIGNAS Trk {
+    int who;
+    bool moved = false;
+    bool by_move;
+    ArgRep *rep = nullptr;
+    unsigned char pad[40];
+    static inline std::atomic<long> ctors{0}, dtors{0}, mv_ctors{0}, mv_dtors{0};
+    static inline thread_local long *cur_moves = nullptr;   // where the running resolver thread counts the instances made on it
+    static inline bool transfer_rep = false;    // set-up of the bind form: the observed argument is the one that ends up in the closure
+    Trk(int w, ArgRep *r = nullptr) : who(w), by_move(false), rep(r) {
+        memset(pad, (unsigned char) w, sizeof pad);
+        if (rep) rep->obj = this;
+        ctors++;
+    }
+    Trk(Trk &&o) noexcept : who(o.who), by_move(true) {
+        memcpy(pad, o.pad, sizeof pad);
+        o.moved = true;
+        if (transfer_rep && o.rep) { rep = o.rep; o.rep = nullptr; rep->obj = this; }
+        ctors++; mv_ctors++;
+        if (cur_moves) ++*cur_moves;
+    }
+    Trk(const Trk &) = delete;
+    Trk &operator=(const Trk &) = delete;
+    Trk &operator=(Trk &&) = delete;
+    ~Trk() {
+        if (rep) { rep->dead = true; rep->moved_at_death = moved; rep->obj = nullptr; }
+        dtors++;
+        if (by_move) mv_dtors++;
+    }
+};
+using Payload = Trk;
+#define MAKE_ARG(who) Trk(who)
+static int who_of(const Trk &b) {
+    if (b.moved) return 9000 + b.who;                                                     // a moved-from shell
+    for (unsigned char c : b.pad) if (c != (unsigned char) b.who) return 9000 + b.who;   // torn / garbage payload
+    return b.who;
+}
+static long payload_copies() { return 0; }
 #else
 #define MAKE_ARG(who) who
 using Payload = int;
 static int who_of(int v) { return v; }
 static long payload_copies() { return 0; }
+#endif
+#ifndef PAYLOAD_TRK
+struct ArgRep {};
 #endif
 
 // ---- probes: read protected state through pointers to members obtained via a derived class ------
@@ -71,10 +130,14 @@ struct PProbe : cocls::promise<Payload> {
 };
 
 static thread_local long lib_allocs = 0;   // operator new calls inside library calls, per thread
+// a library call in progress is visible to the controller too (the thread is parked inside it at an atomic operation): the
+// projection after EVERY step includes the allocations of the calls that have not returned yet
+struct ScopeReg { const long *news = nullptr; long start = 0; bool active = false; };
+static thread_local ScopeReg *cur_reg = nullptr;
 struct lib_scope {
     long start;
-    lib_scope() : start(alloc_stats::news) {}
-    ~lib_scope() { lib_allocs += alloc_stats::news - start; }
+    lib_scope() : start(alloc_stats::news) { if (cur_reg) { cur_reg->news = &alloc_stats::news; cur_reg->start = start; cur_reg->active = true; } }
+    ~lib_scope() { lib_allocs += alloc_stats::news - start; if (cur_reg) cur_reg->active = false; }
 };
 
 // The thread-local ready queue (std::deque) is constructed lazily once per thread; that one-time
@@ -90,6 +153,7 @@ struct Rec {
 
 struct World;
 static void read_result(World &w, Rec &r);
+static void read_result_of(World &w, cocls::future<Payload> &f, Rec &r);
 
 struct CbAwaiter : cocls::awaiter {
     World *world = nullptr;
@@ -106,6 +170,19 @@ struct CbAwaiter : cocls::awaiter {
 
 struct World {
     cocls::future<Payload> fut;
+    // the future under test: `fut`, or the heap future of a callback-promise (waiter kind "mp"), which deletes itself
+    // after its callback ran (`mp_gone`: from then on the projection shows what the callback, the only observer, saw)
+    cocls::future<Payload> *fp = &fut;
+    const void *slot_addr = nullptr;
+    bool mp = false, mp_gone = false;
+    std::string mp_tag, mp_payload;
+    cocls::reusable_storage mp_storage;
+    std::map<std::string, ScopeReg> scopes; // per thread: the library call in progress
+    std::map<std::string, int> ovw_stage;   // ovw: 0 = the assignment, 1 = the call of the moved-from source
+    std::map<std::string, ArgRep> argrep;   // PAYLOAD_TRK: the argument object of every value resolver
+    ArgRep bind_rep;
+    long live0 = 0;
+    std::map<std::string, long> moves;      // PAYLOAD_TRK: payload instances constructed (by moving) on each resolver's thread
     cocls::promise<Payload> *p = nullptr;   // heap object: alive until its destructor has returned
     const void *p_owner_addr = nullptr;
     bool fine = false;      // finest grain (FutureFine.tla): yield before AND after every atomic operation
@@ -139,9 +216,11 @@ struct World {
     }
 };
 
-static void read_result(World &w, Rec &r) {
+static void read_result(World &w, Rec &r) { read_result_of(w, *w.fp, r); }
+
+static void read_result_of(World &w, cocls::future<Payload> &f, Rec &r) {
     try {
-        const Payload &v = w.fut.value();
+        const Payload &v = f.value();
         r.tag = "val";
         r.payload = w.payload_name(who_of(v));
     } catch (const TestExc &e) {
@@ -189,14 +268,21 @@ static cocls::async<void> hv_waiter(World &w, Rec &r) {
 }
 
 #ifndef PAYLOAD_REF
-static cocls::async<Payload> final_coro(int who) {
+#ifdef PAYLOAD_TRK
+static cocls::async<Payload> final_coro(int who, ArgRep *rep = nullptr) {
+    co_return Payload(who, rep);       // the operand is the user's instance; return_value() moves it into the future
+}
+#else
+static cocls::async<Payload> final_coro(int who, ArgRep * = nullptr) {
     co_return Payload(who);
 }
+#endif
 #endif
 
 static std::string pend_site(World &w, const std::string &name, bool resolver);
 
 static std::string pend_of(World &w, const std::string &name, bool resolver) {
+    if (!resolver && w.wkind[name] == "mp") return w.recs[name].done ? "done" : "parked";   // (no thread of its own)
     int t = w.tid[name];
     if (w.sched.done(t)) {
         if (resolver || w.fine) return "done";
@@ -208,24 +294,25 @@ static std::string pend_of(World &w, const std::string &name, bool resolver) {
 }
 
 static std::string pend_site(World &w, const std::string &name, bool resolver) {
-    (void) resolver;
     int t = w.tid[name];
     const auto &e = w.sched.pending(t);
     // classification by operation kind and by WHICH atomic object is touched (robust against renamed or
     // restructured functions): the future's awaiter slot, the promise's owner pointer, anything else
-    const void *slot = &(w.fut.*FProbe::slot_mp());
+    const void *slot = w.slot_addr;
     const void *owner = w.p_owner_addr;
+    const bool ovw = resolver && w.rkind[name] == "ovw";
     switch (e.op) {
         case op_t::mark: return e.tag;
         case op_t::xchg:
             if (e.obj == slot) return "swap";
             if (e.obj == owner) return "claim";
-            if (w.q_owner_addr.count(name) && e.obj == w.q_owner_addr[name]) return "mclaim_own";
+            if (w.q_owner_addr.count(name) && e.obj == w.q_owner_addr[name]) return ovw ? (w.ovw_stage[name] ? "qclaim" : "oclaim") : "mclaim_own";
             break;
         case op_t::load: case op_t::conv:
             if (e.obj == slot) return "check";
             return "dload";                       // a promise's owner pointer (p itself or a moved-to promise)
         case op_t::store: case op_t::assign:
+            if (ovw && e.obj == owner) return "ostore";
             if (w.q_owner_addr.count(name) && e.obj == w.q_owner_addr[name]) return "massign";
             if (e.obj != slot && e.obj != owner) return "flagstore";
             break;
@@ -240,9 +327,32 @@ static std::string pend_site(World &w, const std::string &name, bool resolver) {
     return std::string("?") + cocls_verif::op_name(e.op) + "@" + e.func;
 }
 
+// what the future holds, read straight from its members
+static void stored_result(World &w, cocls::future<Payload> &f, std::string &tag, std::string &payload) {
+    auto st = f.*FProbe::state_mp();
+    using S = cocls::future_common::State;
+    if (st == S::not_value) { tag = "none"; payload = "none"; }
+#ifdef PAYLOAD_REF
+    else if (st == S::value_ref) { tag = "val"; payload = w.payload_name(who_of(*(f.*FProbe::ptr_mp()))); }
+    // future<T&>::set_value(lvalue) (a future that is born resolved) keeps the address in the value slot: state `value`, and
+    // value() dereferences it (future.h:245-262, :351)
+    else if (st == S::value) { tag = "val"; payload = w.payload_name(who_of(*(f.*FProbe::value_mp()))); }
+#else
+    else if (st == S::value) { tag = "val"; payload = w.payload_name(who_of(f.*FProbe::value_mp())); }
+#endif
+    else if (st == S::exception) {
+        tag = "exc";
+        try { std::rethrow_exception(f.*FProbe::exc_mp()); }
+        catch (const TestExc &e) { payload = w.payload_name(e.who); }
+        catch (...) { payload = "other"; }
+    } else { tag = "other"; payload = "other"; }
+}
+
 static J project(World &w) {
     J m = J::map();
-    m.set("allocs", (long) w.allocs.load());
+    long inflight = 0;
+    for (auto &kv : w.scopes) if (kv.second.active) inflight += *kv.second.news - kv.second.start;
+    m.set("allocs", (long) w.allocs.load() + inflight);
     m.set("copies", payload_copies() - w.copies0);
     // owner
     std::string owner = "null";
@@ -253,7 +363,7 @@ static J project(World &w) {
         for (auto &kv : w.rkind) {
             int t = w.tid[kv.first];
             auto op = w.sched.pending(t).op;
-            if (w.sched.parked(t) && !w.sched.pending_after(t) && (op == op_t::xchg || op == op_t::load || op == op_t::conv) && w.sched.pending(t).obj != &(w.fut.*FProbe::slot_mp()))
+            if (w.sched.parked(t) && !w.sched.pending_after(t) && (op == op_t::xchg || op == op_t::load || op == op_t::conv) && w.sched.pending(t).obj != w.slot_addr)
                 w.p_owner_addr = w.sched.pending(t).obj;
         }
     }
@@ -263,11 +373,12 @@ static J project(World &w) {
     m.set("owner", owner);
     // learn node addresses from pending CAS operations
     for (auto &kv : w.wkind) {
+        if (kv.second == "mp") continue;
         int t = w.tid[kv.first];
         if (w.sched.parked(t) && !w.sched.pending_after(t) && w.sched.pending(t).op == op_t::cas) w.node_of[w.sched.pending(t).arg] = kv.first;
     }
     // chain
-    cocls::awaiter *top = (w.fut.*FProbe::slot_mp()).verif_peek();
+    cocls::awaiter *top = w.mp_gone ? &cocls::awaiter::disabled : ((*w.fp).*FProbe::slot_mp()).verif_peek();
     if (top == &cocls::awaiter::disabled) m.set("chain", "ready");
     else {
         J ch = J::list();
@@ -276,27 +387,34 @@ static J project(World &w) {
             if (n == &cocls::awaiter::disabled || n == &cocls::awaiter::instance) { ch.push("sentinel"); break; }
             auto it = w.node_of.find((std::uint64_t) reinterpret_cast<std::uintptr_t>(n));
             ch.push(it == w.node_of.end() ? std::string("unknown") : it->second);
+            if (it == w.node_of.end()) break;       // not a node of ours: do not follow its link
         }
         m.set("chain", ch);
     }
     // stored result
-    auto st = w.fut.*FProbe::state_mp();
-    using S = cocls::future_common::State;
-    if (st == S::not_value) { m.set("tag", "none"); m.set("payload", "none"); }
-#ifdef PAYLOAD_REF
-    else if (st == S::value_ref) { m.set("tag", "val"); m.set("payload", w.payload_name(who_of(*(w.fut.*FProbe::ptr_mp())))); }
-    // future<T&>::set_value(lvalue) (a future that is born resolved) keeps the address in the value slot: state `value`, and
-    // value() dereferences it (future.h:245-262, :351)
-    else if (st == S::value) { m.set("tag", "val"); m.set("payload", w.payload_name(who_of(*(w.fut.*FProbe::value_mp())))); }
-#else
-    else if (st == S::value) { m.set("tag", "val"); m.set("payload", w.payload_name(who_of(w.fut.*FProbe::value_mp()))); }
+    if (w.mp_gone) { m.set("tag", w.mp_tag); m.set("payload", w.mp_payload); }
+    else {
+        std::string tag, payload;
+        stored_result(w, *w.fp, tag, payload);
+        m.set("tag", tag); m.set("payload", payload);
+    }
+#ifdef PAYLOAD_TRK
+    {
+        J arg = J::map();
+        for (auto &kv : w.rkind) if (kv.second == "val" || kv.second == "ovw") {
+            const ArgRep &r = (w.bind && kv.second == "val") ? w.bind_rep : w.argrep[kv.first];
+            bool moved = r.dead ? r.moved_at_death : (r.obj && r.obj->moved);
+            arg.set(kv.first, moved ? "moved" : "intact");
+        }
+        m.set("arg", arg);
+        // the instance inside the closure returned by bind() is the (bound) argument, not an instance the library made for itself
+        long closure = (w.bind && !w.bind_rep.dead) ? 1 : 0;
+        m.set("live", std::min(1L, Trk::mv_ctors.load() - Trk::mv_dtors.load() - w.live0 - closure));
+        J made = J::map();
+        for (auto &kv : w.rkind) if (kv.second == "val" || kv.second == "ovw" || kv.second == "final") made.set(kv.first, std::min(1L, w.moves[kv.first]));
+        m.set("made", made);
+    }
 #endif
-    else if (st == S::exception) {
-        m.set("tag", "exc");
-        try { std::rethrow_exception(w.fut.*FProbe::exc_mp()); }
-        catch (const TestExc &e) { m.set("payload", w.payload_name(e.who)); }
-        catch (...) { m.set("payload", "other"); }
-    } else { m.set("tag", "other"); m.set("payload", "other"); }
     J pend = J::map(), res = J::map(), resumes = J::map(), seen = J::map();
     for (auto &kv : w.rkind) {
         pend.set(kv.first, pend_of(w, kv.first, true));
@@ -344,6 +462,10 @@ struct Explore {
 static const char *action_of(const std::string &pend) {
     if (pend == "claim") return "Claim";
     if (pend == "dtor") return "DtorStart";
+    if (pend == "ovw") return "OvwStart";
+    if (pend == "oclaim") return "OClaim";
+    if (pend == "ostore") return "OStore";
+    if (pend == "qclaim") return "QClaim";
     if (pend == "mclaim_own") return "MClaimOwn";
     if (pend == "massign") return "MAssign";
     if (pend == "dload") return "DLoad";
@@ -380,10 +502,27 @@ static void absorb_extra_loads(World &w, const std::string &expected) {
     }
 }
 
+static void run_one_body(const Scenario &sc, Reporter &rep, Explore *ex);
+
 static void run_one(const Scenario &sc, Reporter &rep, Explore *ex) {
+#ifdef PAYLOAD_TRK
+    long c0 = Trk::ctors, d0 = Trk::dtors;
+#endif
+    run_one_body(sc, rep, ex);
+#ifdef PAYLOAD_TRK
+    // everything is torn down: every payload instance that was constructed has been destroyed
+    if (!rep.failed() && Trk::ctors - c0 != Trk::dtors - d0)
+        rep.diverge(sc.steps.empty() ? 0 : sc.steps.size() - 1, "payload instances constructed=" + std::to_string(Trk::ctors - c0) + " destroyed=" + std::to_string(Trk::dtors - d0) + " after the future and the promise are gone");
+#endif
+}
+
+static void run_one_body(const Scenario &sc, Reporter &rep, Explore *ex) {
     World w;
-    for (auto &kv : sc.hdr.at("R").m) { w.rkind[kv.first] = kv.second.s; w.rres[kv.first] = "none"; }
-    for (auto &kv : sc.hdr.at("W").m) { w.wkind[kv.first] = kv.second.s; w.recs[kv.first]; }
+#ifdef PAYLOAD_TRK
+    w.live0 = Trk::mv_ctors - Trk::mv_dtors;
+#endif
+    for (auto &kv : sc.hdr.at("R").m) { w.rkind[kv.first] = kv.second.s; w.rres[kv.first] = "none"; w.argrep[kv.first]; w.ovw_stage[kv.first] = 0; w.scopes[kv.first]; w.moves[kv.first] = 0; }
+    for (auto &kv : sc.hdr.at("W").m) { w.wkind[kv.first] = kv.second.s; w.recs[kv.first]; w.scopes[kv.first]; if (kv.second.s == "mp") w.mp = true; }
     w.fine = sc.hdr.at("fine").as_bool(false);
     w.form = (int) sc.hdr.at("form").as_int(0) + (ex ? (int) (ex->next() % 6) : 0);
     w.sched.yield_after = w.fine;
@@ -391,27 +530,58 @@ static void run_one(const Scenario &sc, Reporter &rep, Explore *ex) {
     // result_of from a function that returns a pending future; header "pre": from a function that returns a READY
     // future (value / exception / dropped promise) or that THROWS (result_of stores the exception and resolves)
     std::string pre = sc.hdr.at("pre").as_str("none");
-    if (pre == "none") {
+    if (w.mp) {
+        // a callback-promise: make_promise<T>(fn) / make_promise<T>(fn, storage); fn(future<T>&) is the only observer and
+        // runs when the promise is resolved OR broken; the future deletes itself afterwards (future.h:878-940)
+        std::string name;
+        for (auto &kv : w.wkind) if (kv.second == "mp") name = kv.first;
+        World *pw = &w;
+        Rec *rec = &w.recs[name];
+        auto cb = [pw, rec](cocls::future<Payload> &f) {
+            stored_result(*pw, f, pw->mp_tag, pw->mp_payload);
+            read_result_of(*pw, f, *rec);
+            rec->resumes++;
+            rec->done = true;
+            pw->mp_gone = true;
+        };
+#ifndef PAYLOAD_ALIGN
+        // (a storage hands out blocks of the default alignment only: no over-aligned future in it)
+        if (w.form % 2 == 1) w.p = new cocls::promise<Payload>(cocls::make_promise<Payload>(std::move(cb), w.mp_storage));
+        else
+#endif
+        w.p = new cocls::promise<Payload>(cocls::make_promise<Payload>(std::move(cb)));
+        w.fp = ((*w.p).*PProbe::owner_mp()).verif_peek();
+        // its own awaiter node sits in the slot from the start
+        w.node_of[(std::uint64_t) reinterpret_cast<std::uintptr_t>(((*w.fp).*FProbe::slot_mp()).verif_peek())] = name;
+    } else if (pre == "none") {
         if (w.form % 2 == 0) w.p = new cocls::promise<Payload>(w.fut.get_promise());
         else w.fut << [&]() -> cocls::future<Payload> { return cocls::future<Payload>([&](cocls::promise<Payload> p) { w.p = new cocls::promise<Payload>(std::move(p)); }); };
     } else {
         if (pre == "exc_throw") w.fut << [&]() -> cocls::future<Payload> { throw TestExc(0); };
         else if (pre == "exc") w.fut << [&]() -> cocls::future<Payload> { return cocls::future<Payload>::set_exception(std::make_exception_ptr(TestExc(0))); };
         else if (pre == "val") w.fut << [&]() -> cocls::future<Payload> { return cocls::future<Payload>::set_value(MAKE_ARG(0)); };
+        else if (pre == "novalue") w.fut << [&]() -> cocls::future<Payload> { return cocls::future<Payload>::set_not_value(); };   // born "ready, no value"
         else w.fut << [&]() -> cocls::future<Payload> { return cocls::future<Payload>([&](cocls::promise<Payload>) {}); };   // "drop"
         w.p = new cocls::promise<Payload>();     // an empty promise object: nothing to resolve
     }
     w.p_owner_addr = &((*w.p).*PProbe::owner_mp());
+    w.slot_addr = &((*w.fp).*FProbe::slot_mp());
     w.copies0 = payload_copies();
     w.bind = sc.hdr.at("bind").as_bool(false);
     if (w.sched.record_motable) {
-        cocls_verif::motable::get().label(&(w.fut.*FProbe::slot_mp()), sizeof(void *), "future.slot");
+        cocls_verif::motable::get().label(w.slot_addr, sizeof(void *), "future.slot");
         cocls_verif::motable::get().label(w.p_owner_addr, sizeof(void *), "promise.owner");
     }
 #ifndef PAYLOAD_REF
     // bind form: the promise is moved into the closure returned by bind(args...) before the threads start; the value
     // resolver later just calls the closure.  Allocations made by bind() itself are the library's.
+#ifdef PAYLOAD_TRK
+    // the observed argument is the instance that ends up inside the closure
+    Trk::transfer_rep = true;
+    auto make_bound = [&](int who) { return w.p->bind(Payload(who, &w.bind_rep)); };
+#else
     auto make_bound = [&](int who) { return w.p->bind(Payload(who)); };
+#endif
     using Bound = decltype(make_bound(0));
     std::optional<Bound> bound;
     if (w.bind) {
@@ -424,6 +594,9 @@ static void run_one(const Scenario &sc, Reporter &rep, Explore *ex) {
         w.call_bound = [&bound] { return (bool) (*bound)(); };
         w.drop_bound = [&bound, pw = &w] { bound.reset(); pw->bound_dead = true; };
     }
+#ifdef PAYLOAD_TRK
+    Trk::transfer_rep = false;
+#endif
     cocls::async<Payload> *fin = nullptr;
     std::optional<cocls::async<Payload>> fin_store;
     for (auto &kv : w.rkind) if (kv.second == "final") {
@@ -450,14 +623,26 @@ static void run_one(const Scenario &sc, Reporter &rep, Explore *ex) {
         w.tid[name] = w.sched.spawn([pw, name, kind, who, form] {
             World &w = *pw;
             warm_thread();
+            cur_reg = &w.scopes[name];
+#ifdef PAYLOAD_TRK
+            Trk::cur_moves = &w.moves[name];
+#endif
             if (kind == "val") {
                 bool b;
 #ifndef PAYLOAD_REF
                 if (!w.bind && form % 3 == 2) {
                     // a coroutine started with the promise: async::start(promise&) claims it; only the claimer starts the body,
                     // whose co_return stores the value and whose final suspend resolves the future
-                    auto c = final_coro(who);                  // the user's frame (outside the library scope)
+                    auto c = final_coro(who, &w.argrep[name]);                  // the user's frame (outside the library scope)
                     { lib_scope s; b = (bool) c.start(*w.p); }
+                } else
+#endif
+#ifdef PAYLOAD_TRK
+                if (!w.bind) {
+                    // the caller's own object, passed as an rvalue: a refused call must leave it alone
+                    Payload arg(who, &w.argrep[name]);
+                    lib_scope s;
+                    if (form % 2 == 0) b = (*w.p)(std::move(arg)); else b = w.p->set_value(std::move(arg));
                 } else
 #endif
                 { lib_scope s; if (w.bind) b = w.call_bound(); else if (form % 2 == 0) b = (*w.p)(MAKE_ARG(who)); else b = w.p->set_value(MAKE_ARG(who)); }
@@ -485,6 +670,22 @@ static void run_one(const Scenario &sc, Reporter &rep, Explore *ex) {
                 cocls::promise<Payload> q;
                 { alloc_pause np; w.q_owner_addr[name] = &(q.*PProbe::owner_mp()); }
                 q = std::move(*w.p);
+            } else if (kind == "ovw") {
+                // another (empty) promise is move-assigned OVER p: p's pending future is dropped first
+                vsched::mark("ovw");
+                lib_scope s;
+                cocls::promise<Payload> q;          // a named object that outlives the assignment
+                { alloc_pause np; w.q_owner_addr[name] = &(q.*PProbe::owner_mp()); }
+                *w.p = std::move(q);
+                w.ovw_stage[name] = 1;
+                // the moved-from source is empty: calling it is refused and changes nothing
+                bool b;
+#if defined(PAYLOAD_TRK)
+                { Payload arg(who, &w.argrep[name]); b = form % 2 == 0 ? (bool) q(std::move(arg)) : (bool) q.set_value(std::move(arg)); }
+#else
+                b = form % 2 == 0 ? (bool) q(MAKE_ARG(who)) : (bool) q.set_value(MAKE_ARG(who));
+#endif
+                w.rres[name] = b ? "true" : "false";
             } else if (kind == "dtor") {
                 vsched::mark("dtor");
                 lib_scope s;
@@ -501,6 +702,7 @@ static void run_one(const Scenario &sc, Reporter &rep, Explore *ex) {
         std::string name = kv.first, kind = kv.second;
         World *pw = &w;
         int form = w.form + atoi(name.c_str() + 1);
+        if (kind == "mp") continue;      // the callback was installed by make_promise
         if (kind == "cb") {
             if (form % 2 == 0) {
                 w.cbs[name].reset(new CbAwaiter());
@@ -508,7 +710,7 @@ static void run_one(const Scenario &sc, Reporter &rep, Explore *ex) {
                 w.cbs[name]->rec = &w.recs[name];
                 w.cbnode[name] = w.cbs[name].get();
             } else {
-                w.fnaw[name].reset(new cocls::co_awaiter<cocls::future<Payload>>(w.fut.operator co_await()));
+                w.fnaw[name].reset(new cocls::co_awaiter<cocls::future<Payload>>(w.fp->operator co_await()));
                 w.fnctx[name] = World::FnCtx{pw, &w.recs[name]};
                 w.cbnode[name] = w.fnaw[name].get();
             }
@@ -516,6 +718,7 @@ static void run_one(const Scenario &sc, Reporter &rep, Explore *ex) {
         w.tid[name] = w.sched.spawn([pw, name, kind, form] {
             World &w = *pw;
             warm_thread();
+            cur_reg = &w.scopes[name];
             Rec &r = w.recs[name];
             if (kind == "co") {
                 auto c = co_waiter(w, r);          // frame allocation is the user's (outside lib scope)
@@ -558,7 +761,7 @@ static void run_one(const Scenario &sc, Reporter &rep, Explore *ex) {
     if (ex) {
         std::vector<std::string> names;
         for (auto &kv : w.rkind) names.push_back(kv.first);
-        for (auto &kv : w.wkind) names.push_back(kv.first);
+        for (auto &kv : w.wkind) if (kv.second != "mp") names.push_back(kv.first);
         for (;;) {
             std::vector<std::string> en;
             for (auto &n : names) if (w.sched.enabled(w.tid[n])) {
@@ -567,6 +770,16 @@ static void run_one(const Scenario &sc, Reporter &rep, Explore *ex) {
                     bool others_done = true;
                     for (auto &kv : w.rkind) if (kv.second != "dtor" && !w.sched.done(w.tid[kv.first])) others_done = false;
                     if (!others_done) continue;
+                }
+                // ... and so is an assignment over it
+                if (w.rkind.count(n) && pend_of(w, n, true) == "ovw") {
+                    bool free_now = true;
+                    for (auto &kv : w.rkind) {
+                        if (kv.second == "dtor" || kv.first == n) continue;
+                        bool fin = w.sched.done(w.tid[kv.first]);
+                        if (kv.second == "ovw" ? !(fin || pend_of(w, kv.first, true) == "ovw") : !fin) free_now = false;
+                    }
+                    if (!free_now) continue;
                 }
                 en.push_back(n);
             }
